@@ -1,12 +1,14 @@
 (* C08 - Client-built requests are accepted and yield the requested document.
-   The create builder is modelled (Sidetree/ClientCreate.v) and its output proved acceptable;
-   the builders of the signed operation types and the Sidetree client are exercised, not
-   re-implemented: for them the theorems below are the facts about the parser / applier mirrors
-   that make builder output acceptable, and the builder side is checked by correspondence on
-   generated lifecycles (partial, see DESIGN C08). *)
+   The four request builders are modelled (Sidetree/ClientCreate.v, ClientUpdate.v,
+   ClientDeactivateRecover.v; the signed ones without anchoring window, the signature an
+   opaque non-empty string) and their output proved acceptable to a parser configured with the
+   matching protocol.  The Sidetree client, the anchoring-window options, "applying yields the
+   requested document" and the anchored form are checked by correspondence on generated
+   lifecycles (partial, see DESIGN C08). *)
 From Coq Require Import ZArith NArith String List Bool.
 From Sidetree Require Import Base.Sha2 Json.Json Json.Jcs Sidetree.Protocol Sidetree.Hashing Sidetree.Parser Sidetree.Applier
-     Json.JcsProps Json.JcsRoundTrip Sidetree.JequivDecode Sidetree.ClientCreate.
+     Json.JcsProps Json.JcsRoundTrip Sidetree.JequivDecode Sidetree.ClientCreate
+     Sidetree.Rules Sidetree.Validator Sidetree.ClientUpdate Sidetree.ClientDeactivateRecover.
 Import ListNotations.
 Open Scope string_scope.
 
@@ -32,6 +34,64 @@ Theorem C08_create_built_accepted : forall cfg u n o t i bytes sd d a rest,
     (exists sd', p_suffix_data p = Some sd' /\ sd_recovery_c sd' = ci_recovery_c i /\ jequiv (ci_origin i) (sd_origin sd')).
 Proof. exact create_built_accepted. Qed.
 Print Assumptions C08_create_built_accepted.
+
+Theorem C08_update_built_accepted : forall cfg u n o t i bytes d dh,
+  build_update i = Some (bytes, d, dh) ->
+  In (ui_code i) (algs cfg) ->
+  (Z.of_nat (String.length bytes) <= P_MaxOperationSize cfg)%Z ->
+  hash_rule cfg (ui_reveal i) -> key_matches_reveal (Some (ui_key i)) (ui_reveal i) = true ->
+  (Z.of_nat (String.length (ui_update_c i)) <= P_MaxOperationHashLength cfg)%Z -> mh_code (ui_update_c i) = Some (ui_code i) ->
+  (Z.of_nat (String.length dh) <= P_MaxOperationHashLength cfg)%Z ->
+  (forall c, jcs (img_delta d) = Some c -> (Z.of_nat (String.length c) <= P_MaxDeltaSize cfg)%Z) ->
+  In (ui_alg i) (P_SignatureAlgorithms cfg) ->
+  In (k_crv (ui_key i)) (P_KeyAlgorithms cfg) -> nonce_rule cfg (k_nonce (ui_key i)) ->
+  t 0%Z (until_of cfg 0 0) = true ->
+  Forall is_obj (ui_patches i) -> Forall wfnum (ui_patches i) ->
+  (forall p p', In p (ui_patches i) -> jequiv p p' -> patch_enabled cfg p' = true /\ validate_patch u n p' = true) ->
+  exists p d',
+    parse_operation cfg u n o t bytes false = Some p /\
+    p_type p = "update" /\ p_suffix p = ui_suffix i /\ p_reveal p = ui_reveal i /\
+    p_delta p = Some d' /\ d_update_c d' = ui_update_c i /\ Forall2 jequiv (ui_patches i) (d_patches d') /\
+    p_time_args p = Some (0%Z, until_of cfg 0 0).
+Proof. exact update_built_accepted. Qed.
+Print Assumptions C08_update_built_accepted.
+
+Theorem C08_deactivate_built_accepted : forall cfg u n o t i bytes,
+  build_deactivate i = Some bytes ->
+  (Z.of_nat (String.length bytes) <= P_MaxOperationSize cfg)%Z ->
+  hash_rule cfg (di_reveal i) -> key_matches_reveal (Some (di_key i)) (di_reveal i) = true ->
+  In (di_alg i) (P_SignatureAlgorithms cfg) ->
+  jwk_valid (di_key i) = true -> In (k_crv (di_key i)) (P_KeyAlgorithms cfg) -> nonce_rule cfg (k_nonce (di_key i)) ->
+  t 0%Z (until_of cfg 0 0) = true ->
+  exists p,
+    parse_operation cfg u n o t bytes false = Some p /\
+    p_type p = "deactivate" /\ p_suffix p = di_suffix i /\ p_reveal p = di_reveal i /\ p_delta p = None.
+Proof. exact deactivate_built_accepted. Qed.
+Print Assumptions C08_deactivate_built_accepted.
+
+Theorem C08_recover_built_accepted : forall cfg u n o t i bytes d dh,
+  build_recover i = Some (bytes, d, dh) ->
+  In (ri_code i) (algs cfg) ->
+  (Z.of_nat (String.length bytes) <= P_MaxOperationSize cfg)%Z ->
+  hash_rule cfg (ri_reveal i) -> key_matches_reveal (Some (ri_key i)) (ri_reveal i) = true ->
+  (Z.of_nat (String.length (ri_update_c i)) <= P_MaxOperationHashLength cfg)%Z -> mh_code (ri_update_c i) = Some (ri_code i) ->
+  (Z.of_nat (String.length (ri_recovery_c i)) <= P_MaxOperationHashLength cfg)%Z -> mh_code (ri_recovery_c i) = Some (ri_code i) ->
+  ri_update_c i <> ri_recovery_c i ->
+  (Z.of_nat (String.length dh) <= P_MaxOperationHashLength cfg)%Z ->
+  (forall c, jcs (img_delta d) = Some c -> (Z.of_nat (String.length c) <= P_MaxDeltaSize cfg)%Z) ->
+  In (ri_alg i) (P_SignatureAlgorithms cfg) ->
+  In (k_crv (ri_key i)) (P_KeyAlgorithms cfg) -> nonce_rule cfg (k_nonce (ri_key i)) ->
+  t 0%Z (until_of cfg 0 0) = true ->
+  wfnum (ri_origin i) -> (forall o', jequiv (ri_origin i) o' -> o o' = true) ->
+  Forall is_obj (ri_patches i) -> Forall wfnum (ri_patches i) ->
+  (forall p p', In p (ri_patches i) -> jequiv p p' -> patch_enabled cfg p' = true /\ validate_patch u n p' = true) ->
+  exists p d',
+    parse_operation cfg u n o t bytes false = Some p /\
+    p_type p = "recover" /\ p_suffix p = ri_suffix i /\ p_reveal p = ri_reveal i /\
+    p_delta p = Some d' /\ d_update_c d' = ri_update_c i /\ Forall2 jequiv (ri_patches i) (d_patches d') /\
+    jequiv (ri_origin i) (p_origin p).
+Proof. exact recover_built_accepted. Qed.
+Print Assumptions C08_recover_built_accepted.
 
 (* a reveal value computed from a key validates against that key (what builders rely on when
    they derive the reveal value from the signer's key and the operation commitment's algorithm) *)
